@@ -100,6 +100,7 @@ type world struct {
 	fcStart   bool
 	maxReq    int
 	doWG      sync.WaitGroup
+	ackN      int
 }
 
 func newWorld(r *rec, s *sched.S, maxRetries, maxReq int) *world {
@@ -187,7 +188,16 @@ func (w *world) notifyResult(j, i int, k string) {
 
 func (w *world) ack(i int) {
 	w.r.emit(tr.M{"ev": "AckCall", "i": i})
-	w.e.NotifyAcks([]int64{msgID(i)})
+	// msgs_ack batches carry several ids; ids nobody waits for (pings, answered requests) are normal
+	w.ackN++
+	switch w.ackN % 3 {
+	case 0:
+		w.e.NotifyAcks([]int64{msgID(i)})
+	case 1:
+		w.e.NotifyAcks([]int64{99996, msgID(i)})
+	default:
+		w.e.NotifyAcks([]int64{msgID(i), 99992})
+	}
 	w.r.emit(tr.M{"ev": "AckReturned", "i": i})
 }
 
